@@ -170,12 +170,62 @@ def aio(sizes, to_thread):
     return exp, stats_of(p), {0: p.enable_count}, errors, p.enable_count
 
 
+WSRC = '''
+def step(x):
+    y = x + 1
+    return y
+
+def task(prof, n, fail_at):
+    with prof:
+        for i in range(n):
+            step(i)
+            if i == fail_at:
+                raise ValueError("task fails inside its window")
+            yield i
+'''
+
+
+def withblocks(specs, order):
+    """step-wise driven tasks that each hold a `with prof:` window across their suspension points; some leave the window by an exception while
+    windows of other tasks are still open: expected = each task alone"""
+    def fresh():
+        ns = {}
+        exec(compile(WSRC, 'c13_with.py', 'exec'), ns)
+        p = line_profiler.LineProfiler()
+        p.add_function(ns['step'])
+        return ns, p
+
+    def drive(ns, p, which):
+        tasks = {k: ns['task'](p, n, f) for k, (n, f) in enumerate(specs) if k in which}
+        for k in order:
+            t = tasks.get(k)
+            if t is None:
+                continue
+            try:
+                next(t)
+            except (StopIteration, ValueError):
+                tasks[k] = None
+    exp = {}
+    for k in range(len(specs)):
+        ns, p = fresh()
+        drive(ns, p, {k})
+        for key, h in stats_of(p).items():
+            exp[key] = exp.get(key, 0) + h
+    ns, p = fresh()
+    drive(ns, p, set(range(len(specs))))
+    return exp, stats_of(p), {0: p.enable_count}, [], p.enable_count
+
+
 def main():
     payload = json.load(sys.stdin)
     out = []
     for case in payload['cases']:
         jobs = case.get('jobs')
         try:
+            if case.get('withblocks'):
+                exp, got, counts, errors, main_count = withblocks(case['withblocks'], case['order'])
+                out.append({'expected': exp, 'got': got, 'counts': counts, 'errors': errors, 'main_count': main_count})
+                continue
             if case.get('aio'):
                 exp, got, counts, errors, main_count = aio(case['aio'], case.get('to_thread', 0))
                 out.append({'expected': exp, 'got': got, 'counts': counts, 'errors': errors, 'main_count': main_count})
